@@ -621,6 +621,10 @@ def gen_query(rng, SET, mode=None):
         q["ft_form"] = rng.choice(["str", "str", "list", "tuple", "set"])
         k = 1 if q["ft_form"] == "str" else rng.choice([1, 2, 2, 3])
         q["ft"] = sorted(rng.sample(TYPES + ["absent_type"], k))
+        if q["ft_form"] in ("list", "tuple") and rng.random() < 0.3:
+            # an iterable that names a featuretype more than once (['exon', 'CDS', 'exon'])
+            q["ft"] = q["ft"] + [rng.choice(q["ft"]) for _ in range(rng.choice([1, 1, 2]))]
+            rng.shuffle(q["ft"])
     return q
 
 
@@ -831,3 +835,97 @@ def _declared_interval(rng, SET, pool, within, seqid):
         a = 1 if r < 0.3 else max(1, E - rng.choice([0, 1, 1000, 2 ** 17])) if r < 0.7 else _value(rng, SET, hi=b)
     a, b = max(1, a), max(1, b)
     return (a, b) if a <= b else (b, a)
+
+
+# -- workload classes added in round 6 ------------------------------------------------------------------------------------
+# seqids holding characters that the string forms "seqid:start-end" / "seqid" could trip over.  A ':' inside the seqid is
+# not expressible in the string form of the unchanged tree ('a:b:1-5' is read as seqid 'a', coordinates 'b'), so seqids
+# with ':' are stored and queried through the tuple / keyword / Feature forms only.
+ODD_SEQIDS = ["contig_12,len=4003", "contig_12len=4003", "chr1,000", "chr1000", "chr-1", "chr-1-2", "1-5", "scaffold 7",
+              "scaffold7", "GC50%", "sc%2C1", "sc,1", "a,b,c", "abc", "ctg=7;x", "ctg|7.1", "NODE_1_length_200_cov_1.5", ",", "chr1,"]
+COLON_SEQIDS = ["chr:1", "a:b:c"]
+ODD_TYPES = ["gene", "exon", "CDS", "match", "five_prime_UTR"]
+
+
+def make_odd(seed, seqids, n=10):
+    """Model features on the given seqids: every seqid carries features at the SAME coordinates (so that a query for one
+    seqid would match the features of any other), genes with exon / CDS / UTR children, some across the first bin end."""
+    rng = random.Random(seed * 7919 + 3)
+    sites = []
+    for gi in range(max(2, n // 4)):
+        a = rng.choice([rng.randrange(1, 5000), rng.randrange(130000, 131072), rng.randrange(1, 100000)])
+        b = a + rng.randrange(200, 4000)
+        strand = rng.choice(STRANDS)
+        kids = []
+        for _ in range(rng.randrange(2, 5)):
+            x = rng.randrange(a, b)
+            kids.append((rng.choice(["exon", "exon", "CDS", "five_prime_UTR"]), x, min(b, x + rng.randrange(1, 300))))
+        sites.append((a, b, strand, kids))
+    loose = [(rng.choice(["match", "exon", "CDS"]), x, x + rng.randrange(0, 500), rng.choice(STRANDS))
+             for x in [rng.randrange(1, 140000) for _ in range(max(2, n // 3))]]
+    feats = []
+    for si, seqid in enumerate(seqids):
+        for gi, (a, b, strand, kids) in enumerate(sites):
+            if rng.random() < 0.15:
+                continue
+            gid = "g%d_%d" % (si, gi)
+            feats.append({"id": gid, "seqid": seqid, "featuretype": "gene", "start": a, "end": b, "strand": strand, "parents": []})
+            for ki, (ft, x, y) in enumerate(kids):
+                feats.append({"id": "%s.k%d" % (gid, ki), "seqid": seqid, "featuretype": ft, "start": x, "end": y,
+                              "strand": strand, "parents": [gid]})
+        for li, (ft, x, y, strand) in enumerate(loose):
+            if rng.random() < 0.15:
+                continue
+            feats.append({"id": "m%d_%d" % (si, li), "seqid": seqid, "featuretype": ft, "start": x, "end": y, "strand": strand,
+                          "parents": []})
+    rng.shuffle(feats)
+    return feats
+
+
+def gen_oddseq(rng):
+    """An 'oddseq' case: stored seqids (odd ones, each with its separator-less twin when drawn, plain ones, optionally one
+    holding ':') and a list of queries {"seqid", "start", "end" (None, None: bare seqid), "within", "strand", "ft" (list, may
+    name a type more than once; None), "ft_form", "ft_from" (id of a gene: the list is built at run time from the
+    featuretypes of its children)}."""
+    seqids = rng.sample(ODD_SEQIDS, rng.choice([3, 4, 5]))
+    for a, b in (("contig_12,len=4003", "contig_12len=4003"), ("chr1,000", "chr1000"), ("sc,1", "sc%2C1"), ("a,b,c", "abc"),
+                 ("scaffold 7", "scaffold7")):
+        if a in seqids and b not in seqids and rng.random() < 0.8:
+            seqids.append(b)
+    if rng.random() < 0.7 and "contig_12,len=4003" not in seqids:
+        seqids += ["contig_12,len=4003", "contig_12len=4003"]
+    seqids.append("chr1")
+    if rng.random() < 0.4:
+        seqids.append(rng.choice(COLON_SEQIDS))
+    seed = rng.randrange(1 << 30)
+    feats = make_odd(seed, seqids)
+    genes = [f for f in feats if f["featuretype"] == "gene"]
+    qs = []
+    for _ in range(rng.randrange(10, 16)):
+        f = rng.choice(feats)
+        q = {"seqid": f["seqid"] if rng.random() < 0.9 else rng.choice(seqids), "within": rng.random() < 0.5,
+             "strand": rng.choice([None, None, "+", "-", "."]), "ft": None, "ft_form": None, "ft_from": None, "gene": None}
+        r = rng.random()
+        if r < 0.2:
+            q["start"], q["end"] = None, None                  # the bare "seqid" string form
+        elif r < 0.6:
+            g = rng.choice([x for x in genes if x["seqid"] == q["seqid"]] or [f])
+            q["start"], q["end"] = max(1, g["start"] - rng.randrange(0, 50)), g["end"] + rng.randrange(0, 50)
+        else:
+            q["start"] = max(1, f["start"] - rng.randrange(0, 300))
+            q["end"] = max(q["start"], f["end"] + rng.randrange(-100, 300))
+        here = [x for x in genes if x["seqid"] == q["seqid"]]
+        if here:
+            q["gene"] = rng.choice(here)["id"]                 # for children(gene, limit=...) / parents(child of gene, limit=...)
+        r = rng.random()
+        if r < 0.35 and here:
+            q["ft_from"], q["ft_form"] = rng.choice(here)["id"], "list"
+        elif r < 0.75:
+            k = rng.choice([1, 2, 2, 3])
+            ft = rng.sample(ODD_TYPES + ["absent_type"], k)
+            if rng.random() < 0.7:
+                ft += [rng.choice(ft) for _ in range(rng.choice([1, 1, 2, 3]))]
+                rng.shuffle(ft)
+            q["ft"], q["ft_form"] = ft, rng.choice(["list", "tuple"])
+        qs.append(q)
+    return {"kind": "oddseq", "seed": seed, "seqids": seqids, "queries": qs}
